@@ -52,6 +52,7 @@ func init() {
 			for i := 0; i < 16; i++ {
 				sh = append(sh, Shard{Kind: "sched", Arg: fmt.Sprintf("%d/16", i), Tier: tier, Seed: seed})
 			}
+			sh = append(sh, Shard{Kind: "purity", Tier: tier, Seed: seed})
 			sh = append(sh, Shard{Kind: "race", Tier: tier, Seed: seed})
 			return sh
 		},
@@ -220,6 +221,8 @@ func runC09(w *W) {
 		c09Pairs(w)
 	case "sched":
 		c09Sched(w)
+	case "purity":
+		c09Purity(w)
 	case "race":
 		c09Race(w)
 	}
@@ -668,6 +671,12 @@ func c09Race(w *W) {
 			}
 		}
 	}
+	for _, ln := range lines {
+		if strings.HasPrefix(ln, "SHARED-MISMATCH ") {
+			parts := strings.SplitN(strings.TrimPrefix(ln, "SHARED-MISMATCH "), ":", 2)
+			w.Viol("C09:shared-accessors:result:"+parts[0], "concurrent read-only accessor calls on a shared "+parts[0]+" returned a value different from the sequential one: "+clip(parts[len(parts)-1]), parts[0])
+		}
+	}
 	n := strings.Count(stdout.String(), "RAN ")
 	w.R.States += int64(n)
 	w.R.Transitions += int64(n) * 20
@@ -697,8 +706,73 @@ func raceSite(rep string) string {
 	return "unknown-site"
 }
 
+// sharedObjects: fresh instances of every object type whose read-only accessors may be called concurrently.
+func sharedObjects() map[string]interface{} {
+	calendar.CACHE_YEAR = nil // every call builds fresh instances (NewLunarYear would otherwise hand out the cached pointer)
+	l := calendar.NewSolar(2020, 5, 22, 23, 30, 0).GetLunar()
+	l2 := calendar.NewSolar(2033, 12, 22, 1, 0, 0).GetLunar()
+	calendar.CACHE_YEAR = nil
+	ly := calendar.NewLunarYear(2033)
+	calendar.CACHE_YEAR = nil
+	ec := l.GetEightChar()
+	yun := ec.GetYun(1)
+	dy := yun.GetDaYun()[2]
+	return map[string]interface{}{
+		"Lunar": l, "Lunar(leap-year-end)": l2, "Solar": l.GetSolar(), "LunarYear": ly, "LunarMonth": calendar.NewLunarMonthFromYm(2033, -11), "LunarTime": l.GetTime(),
+		"EightChar": ec, "Yun": yun, "DaYun": dy, "LiuNian": dy.GetLiuNian()[3], "XiaoYun": dy.GetXiaoYun()[3], "LiuYue": dy.GetLiuNian()[3].GetLiuYue()[5],
+		"Tao": l.GetTao(), "Foto": l.GetFoto(), "NineStar": l.GetDayNineStar(), "SolarWeek": calendar.NewSolarWeekFromYmd(2020, 5, 22, 1), "SolarMonth": calendar.NewSolarMonthFromYm(2020, 5),
+		"JieQi": l.GetPrevJieQi(),
+	}
+}
+
 // racePassMain runs in the -race binary: every scenario's thread bodies on real goroutines, free-running.
 func racePassMain(reps int, tier string) {
+	// read-only accessor sweeps on shared objects: 4 goroutines call every exported zero-argument method of one shared instance
+	shallowSlices = true
+	for name := range sharedObjects() {
+		fmt.Fprintf(os.Stderr, "SCENARIO shared-accessors[%s] [all zero-argument methods x 8 goroutines, rotated start]\n", name)
+		n := reps * 2
+		if strings.HasPrefix(name, "Lunar") && !strings.HasPrefix(name, "LunarYear") && !strings.HasPrefix(name, "LunarMonth") {
+			n = reps / 2 // the Lunar digest is ~50x more expensive than the others
+		}
+		for r := 0; r < n; r++ {
+			refObj := sharedObjects()[name]
+			refRes := map[string]string{}
+			for _, m := range callAll(refObj, nil) {
+				refRes[m.Name] = m.Out
+			}
+			obj := sharedObjects()[name] // a second, untouched instance is shared by the goroutines
+			v := reflect.ValueOf(obj)
+			idx := zeroArgMethods(v.Type())
+			const G = 8
+			var wg sync.WaitGroup
+			start := make(chan struct{})
+			bad := make([]string, G)
+			for g := 0; g < G; g++ {
+				g := g
+				wg.Add(1)
+				go func() {
+					defer wg.Done()
+					<-start
+					for k := range idx {
+						i := idx[(k+g*len(idx)/G)%len(idx)] // rotated order: different goroutines reach a lazily written field at different moments
+						name := v.Type().Method(i).Name
+						if out := callOne(v, i, name).Out; out != refRes[name] && bad[g] == "" {
+							bad[g] = name + ": " + clip(out) + " <> " + clip(refRes[name])
+						}
+					}
+				}()
+			}
+			close(start)
+			wg.Wait()
+			for _, b := range bad {
+				if b != "" {
+					fmt.Fprintf(os.Stderr, "SHARED-MISMATCH %s: %s\n", name, b)
+				}
+			}
+		}
+		fmt.Printf("RAN shared-accessors[%s]\n", name)
+	}
 	ops := c09SchedOps()
 	for _, sc := range c09Scenarios() {
 		if len(sc.threads) == 2 && len(sc.threads[0]) == 2 && tier != "thorough" {
@@ -881,4 +955,45 @@ func c09Scan(w *W) {
 		w.R.Notes = append(w.R.Notes, "scan: variables outside the expected hidden-state set: "+strings.Join(extra, ", ")+" — the canonical digest may be incomplete; rely on the unreduced enumeration")
 	}
 	w.Sample(map[string]interface{}{"mutable_package_state": names})
+}
+
+// c09Purity: a read-only accessor must not write to the object it is called on (nor to objects reachable from it):
+// such a write is unsynchronised, so two goroutines calling accessors on a shared object would race. Deterministic
+// and exhaustive over all exported zero-argument methods of every shared object type: deep snapshot of the private
+// state before and after each call on a fresh instance.
+func c09Purity(w *W) {
+	x := runSchedule(nil, []func(*thr){func(t *thr) {
+		for name := range sharedObjects() {
+			proto := sharedObjects()[name]
+			v0 := reflect.ValueOf(proto)
+			idx := zeroArgMethods(v0.Type())
+			for _, i := range idx {
+				obj := sharedObjects()[name]
+				v := reflect.ValueOf(obj)
+				before := deepSnap(v, 4, map[uintptr]bool{})
+				hs0 := hiddenState()
+				mname := v.Type().Method(i).Name
+				p0 := t.points
+				callOne(v, i, mname)
+				after := deepSnap(v, 4, map[uintptr]bool{})
+				w.R.Transitions++
+				w.R.Traces++
+				w.R.Evals++
+				if before != after && t.points != p0 {
+					// the accessor performed lock operations: the write may be properly synchronised (e.g. sync.Once);
+					// not judged here — the free-running race pass over the same accessors decides
+					w.R.Notes = append(w.R.Notes, fmt.Sprintf("accessor %s.%s writes object state but also synchronises; left to the race pass", name, mname))
+					w.R.Undecided++
+				} else if before != after {
+					w.Viol("C09:accessor-writes-object:"+name+"."+mname, fmt.Sprintf("read-only accessor %s.%s changed the private state of the object it was called on (no lock operation occurred during the call, so the write is unsynchronised: concurrent callers on a shared %s race): %s", name, mname, name, firstDiffWords(strings.ReplaceAll(before, ";", " "), strings.ReplaceAll(after, ";", " "))), name+"."+mname)
+				}
+				_ = hs0
+			}
+			w.R.States++
+		}
+	}}, nil, nil, resetHidden)
+	if x.deadlock {
+		w.Viol("C09:purity:blocked", "an accessor left the library blocked", nil)
+	}
+	w.Sample(map[string]interface{}{"object_types": len(sharedObjects()), "check": "deep private-state snapshot before/after every exported zero-argument method"})
 }
